@@ -53,6 +53,59 @@ def gen_suffix(rng):
     return sel(c)
 
 
+POOL = [".a", ".b", ".c", ".x", "p", "q", "#i"]
+
+
+def small_comp(rng):
+    c = comp()
+    for tok in rng.sample(POOL, rng.choice([1, 1, 1, 2])):
+        if tok[0] == ".":
+            c["cl"].append(tok[1:])
+        elif tok[0] == "#":
+            c["id"] = tok[1:]
+        elif c["el"] is None:
+            c["el"] = tok
+    if rng.random() < 0.1:
+        c["ps"].append(["hover", False, None])
+    return c
+
+
+def ap_chain(rng, n=None):
+    n = n or rng.choice([1, 2, 2, 3, 3, 4])
+    s = sel(small_comp(rng))
+    for _ in range(n - 1):
+        s = sel(small_comp(rng), [rng.choice("AAP"), s])
+    return s
+
+
+def related_chain(rng, a):
+    """a chain sharing compounds with a (so that unify_relbox finds local superselectors), other combinators"""
+    import copy
+    nodes = []
+    n = a
+    while n is not None:
+        nodes.append(n)
+        n = n["rel"][1] if n["rel"] is not None else None
+    keep = [copy.deepcopy(x["c"]) for x in nodes if rng.random() < 0.7] or [copy.deepcopy(nodes[0]["c"])]
+    keep.reverse()                       # root first
+    if rng.random() < 0.5:
+        keep[-1] = small_comp(rng)       # a different subject compound
+    for c in keep:
+        if rng.random() < 0.3:
+            x = rng.choice(["a", "b", "c", "x", "y"])
+            if x not in c["cl"]:
+                c["cl"].append(x)
+    s = sel(keep[0])
+    for c in keep[1:]:
+        s = sel(c, [rng.choice("APP"), s])
+    if rng.random() < 0.3:
+        root = s
+        while root["rel"] is not None:
+            root = root["rel"][1]
+        root["rel"] = [rng.choice("AP"), sel(small_comp(rng))]
+    return s
+
+
 def simple_of(rng, s):
     """a simple selector (as a one-compound selector) occurring in list s, or an unrelated one"""
     if rng.random() < 0.75:
@@ -81,6 +134,9 @@ CORPUS = [
     {"kind": 1, "a": [sel(comp(el="a", ps=[["before", True, None]]))], "b": [sel(comp(ps=[["hover", False, None]]))], "c": []},
     {"kind": 1, "a": [sel(comp(ps=[["host", False, None]]))], "b": [sel(comp(cl=["foo"]))], "c": []},
     {"kind": 2, "a": [sel(comp(el="a", cl=["b"]))], "b": [sel(comp(cl=["c"]))], "c": []},
+    {"kind": 2, "a": [chain(comp(cl=["x"]), "A", comp(cl=["a"]), "A", comp(cl=["c"]))], "b": [chain(comp(cl=["a"]), "P", comp(cl=["d"]))], "c": []},
+    {"kind": 2, "a": [chain(comp(cl=["a"]), "A", comp(cl=["c"]))], "b": [chain(comp(cl=["a"]), "P", comp(cl=["d"]))], "c": []},
+    {"kind": 2, "a": [chain(comp(cl=["x"]), "P", comp(cl=["a"]), "A", comp(cl=["c"]))], "b": [chain(comp(cl=["y"]), "A", comp(cl=["a", "b"]), "P", comp(cl=["c"]))], "c": []},
     {"kind": 2, "a": [chain(comp(cl=["a"]), "A", comp(cl=["b"]))], "b": [chain(comp(cl=["c"]), "A", comp(cl=["d"]))], "c": []},
     {"kind": 3, "a": [sel(comp(el="a", cl=["b"])), sel(comp(cl=["c"]))], "b": [sel(comp(cl=["b"]))], "c": [sel(comp(cl=["x"]))]},
     {"kind": 4, "a": [sel(comp(el="a", cl=["b"])), sel(comp(cl=["c"]))], "b": [sel(comp(cl=["zz"]))], "c": [sel(comp(cl=["x"]))]},
@@ -100,7 +156,7 @@ def gen_cases(ctx, tier):
         cases.append({"kind": 0, "a": a, "b": strip_ph(b), "c": []})
     for _ in range(200 * n):
         cases.append({"kind": 1, "a": gl(rng, 2), "b": [gen_suffix(rng) for _ in range(rng.randint(1, 2))], "c": []})
-    for _ in range(250 * n):
+    for _ in range(450 * n):
         a = gl(rng, 2, other=False)
         b = c23.spec_list(rng, a) if rng.random() < 0.4 else gl(rng, 2)
         if rng.random() < 0.4:
@@ -108,6 +164,13 @@ def gen_cases(ctx, tier):
         if rng.random() < 0.5:            # combinator-free operands: the only ones the unify clause judges
             a = [sel(gen_comp(rng, rng.choice([0, 1]), other=True)) for _ in range(rng.randint(1, 2))]
             b = [sel(gen_comp(rng, rng.choice([0, 1]), other=True)) for _ in range(rng.randint(1, 2))]
+        r = rng.random()
+        if r < 0.45:                      # descendant / child chains over a small vocabulary, often related
+            a = [ap_chain(rng) for _ in range(rng.choice([1, 1, 2]))]
+            b = [related_chain(rng, rng.choice(a)) if rng.random() < 0.7 else ap_chain(rng)
+                 for _ in range(rng.choice([1, 1, 2]))]
+            if rng.random() < 0.5:
+                a, b = b, a
         if ":current(" in t_sels(a) + t_sels(b):
             # :current() compares its arguments for equality and the printer drops an explicit `*` (`*#i` -> `#i`),
             # so the text of the result does not read back as the same argument
